@@ -60,6 +60,10 @@ public:
   }
 
 private:
+  // LoggerProvider looks loggers up by logger_name_: GetName() reports the no-op logger's name
+  // for a disabled logger and can not be used for that.
+  friend class LoggerProvider;
+
   // The name of this logger
   std::string logger_name_;
 
